@@ -138,7 +138,9 @@ def c12_3(ctx, ss):
     add = [a for a in augs if isinstance(a.op, ast.Add)]
     k = ckey(ff, None, "step")
     if len(mult) != 1 or len(sub) != 1 or len(add) != 1:
-        raise AnchorMissing(f"flatten: expected one *=, one -=, one += (found {len(mult)}, {len(sub)}, {len(add)})")
+        ctx.violation("C12.3", k, where(ff, ff.node),
+                      f"a substitution step needs one multiplication of the branching fraction, one addition of the daughters and one removal of the particle; found {len(mult)}, {len(add)}, {len(sub)}")
+        return
     lp = [l for l in enclosing(ff, mult[0], (ast.For,))][0]
     kv = lp.target.id
     # n_k read before any update
